@@ -501,13 +501,67 @@ example : (run (M := Nat) (fun d => if d < 15 then none else some d) true lateSc
 
 end udp
 
+/-! ### Locally generated empty answers: the names of the fake SOA
+
+`hosts.LookupMsg` answers a query whose entry has no address of the asked family with an empty NOERROR reply whose
+authority section is `dnsutils.FakeSOA <query name>`. The reply is owed for every legal query name (up to 255 wire
+octets), so every name inside it must itself fit 255 octets: `dns.Msg.Pack` does not check that, every parser does. -/
+section fakeSoa
+
+/-- Wire lengths of the three names of the SOA built for a name of `n` wire octets: owner, MNAME, RNAME.
+`constant = true` is the code as built (string literals of `nsC` / `mboxC` octets); `constant = false` derives them from
+the name by prepending labels of `nsPre` / `mboxPre` octets ("in-zone" names). -/
+structure SoaNames where
+  owner : Nat
+  ns : Nat
+  mbox : Nat
+
+def fakeSoaNames (constant : Bool) (nsC mboxC nsPre mboxPre n : Nat) : SoaNames :=
+  if constant then ⟨n, nsC, mboxC⟩ else ⟨n, nsPre + n, mboxPre + n⟩
+
+/-- every name of the record fits the 255-octet limit -/
+def SoaNames.fits (s : SoaNames) : Bool := decide (s.owner ≤ 255) && decide (s.ns ≤ 255) && decide (s.mbox ≤ 255)
+
+/-- With constant MNAME / RNAME the record is well formed for EVERY legal query name. -/
+theorem fakeSoa_constant_fits (nsC mboxC nsPre mboxPre n : Nat) (hn : n ≤ 255) (h1 : nsC ≤ 255) (h2 : mboxC ≤ 255) :
+    (fakeSoaNames true nsC mboxC nsPre mboxPre n).fits = true := by
+  simp [fakeSoaNames, SoaNames.fits, hn, h1, h2]
+
+/-- With names derived from the query name, every query name longer than 255 - prefix octets gets a record no parser
+accepts, whatever the constants are. -/
+theorem fakeSoa_in_zone_overflows (nsC mboxC nsPre mboxPre n : Nat) (h : 255 < nsPre + n ∨ 255 < mboxPre + n) :
+    (fakeSoaNames false nsC mboxC nsPre mboxPre n).fits = false := by
+  simp only [fakeSoaNames, SoaNames.fits, Bool.false_eq_true, if_false]
+  cases h with
+  | inl h => have : ¬ (nsPre + n ≤ 255) := by omega
+             simp [this]
+  | inr h => have : ¬ (mboxPre + n ≤ 255) := by omega
+             simp [this]
+
+/-- witness: "fake-mbox." (10 octets) in front of a legal name of 246 octets -/
+theorem fakeSoa_in_zone_is_wrong : ∃ n, n ≤ 255 ∧ (fakeSoaNames false 26 28 8 10 n).fits = false :=
+  ⟨246, by decide, by decide⟩
+
+/-- As built (regenerated facts: Ns and Mbox are string literals, with their wire lengths): the fake SOA of an empty
+local answer is well formed for every legal query name. Fails to compile when FakeSOA derives them from its argument. -/
+theorem fakeSoa_as_built (nsPre mboxPre n : Nat) (hn : n ≤ 255) :
+    (fakeSoaNames (Gen.Facts.c03FakeSoaNamesConstant == some true) (Gen.Facts.c03FakeSoaNsWire.getD 256)
+      (Gen.Facts.c03FakeSoaMboxWire.getD 256) nsPre mboxPre n).fits = true := by
+  have h : (Gen.Facts.c03FakeSoaNamesConstant == some true) = true := by decide
+  rw [h]
+  exact fakeSoa_constant_fits _ _ _ _ n hn (by decide) (by decide)
+
+end fakeSoa
+
 /-! ### Guards over the regenerated facts -/
 theorem facts_guard :
     Gen.Facts.c03ValidityCheck = some true ∧ Gen.Facts.c03ServfailRefusedFromQuery = some true ∧
     Gen.Facts.c03RaForced = some true ∧ Gen.Facts.c03OptThenTruncateThenPack = some true ∧
     Gen.Facts.c03UdpSizeMin512 = some true ∧ Gen.Facts.c03CacheHitIdRewritten = some true ∧
     Gen.Facts.c03RedirectRestores = some true ∧ Gen.Facts.c03LocalAnswersUseSetReply = some true ∧
-    Gen.Facts.c03UdpUnpackInReadLoop = some true ∧ Gen.Facts.c03RedirectRestoresCurrentQuery = some true := by decide
+    Gen.Facts.c03UdpUnpackInReadLoop = some true ∧ Gen.Facts.c03RedirectRestoresCurrentQuery = some true ∧
+    Gen.Facts.c03FakeSoaNamesConstant = some true ∧ Gen.Facts.c03FakeSoaNsWire = some 26 ∧
+    Gen.Facts.c03FakeSoaMboxWire = some 28 := by decide
 
 /-! ### Non-vacuity: a valid query through redirect + local answer -/
 def qx : Question := ⟨[119, 119, 119], 1, 1⟩
